@@ -193,8 +193,23 @@ def asVal {V} : AV V → Except Err V
   | .val v => .ok v
   | .call _ _ => .error .unsupported
 
+def valOfRes {V} (r : Except Err (AV V)) : Except Err V :=
+  match r with
+  | .ok av => asVal av
+  | .error e => .error e
+
+def kwOfRes {V} (k : String) (r : Except Err (AV V)) : Except Err (String × V) :=
+  match valOfRes r with
+  | .ok v => .ok (k, v)
+  | .error e => .error e
+
 def valsOf {V} (rs : List (Except Err (AV V))) : Except Err (List V) :=
-  seqAll (rs.map (fun r => match r with | .ok av => asVal av | .error e => .error e))
+  seqAll (rs.map valOfRes)
+
+def pairOpt {α β} (a : Option α) (b : Option β) : Option (α × β) :=
+  match a, b with
+  | some x, some y => some (x, y)
+  | _, _ => none
 
 def pairUp {ε α β} (a : Except ε α) (b : Except ε β) : Except ε (α × β) :=
   match a with
@@ -243,7 +258,7 @@ def argVal {V} (F : Facts) (prim : Prim V) (target : V) : Obj V → Except Err (
     | .error e => .error e
   | .spec inner =>
     match inner with
-    | .tt _ => argVal F prim target inner      -- Spec.glomit → scope[glom](target, self.spec, scope) → _t_eval
+    | .tt ops => argVal F prim target (.tt ops)   -- Spec.glomit → scope[glom](target, self.spec, scope) → _t_eval
     | _ => .error .unsupported                 -- a Spec of anything else is evaluated by AUTO (C03)
   | .list xs =>
     match valsOf (xs.map (fun a => argVal F prim target a)) with
@@ -255,8 +270,7 @@ def argVal {V} (F : Facts) (prim : Prim V) (target : V) : Obj V → Except Err (
     | .error e => .error e
   | .dict es =>
     match seqAll (es.map (fun p =>
-        pairUp (match argVal F prim target p.1 with | .ok av => asVal av | .error e => .error e)
-               (match argVal F prim target p.2 with | .ok av => asVal av | .error e => .error e))) with
+        pairUp (valOfRes (argVal F prim target p.1)) (valOfRes (argVal F prim target p.2)))) with
     | .ok kvs => match liftExc (prim.mkDict kvs) with
       | .ok v => .ok (.val v)
       | .error e => .error e
@@ -265,10 +279,7 @@ def argVal {V} (F : Facts) (prim : Prim V) (target : V) : Obj V → Except Err (
     match valsOf (args.map (fun a => argVal F prim target a)) with
     | .error e => .error e
     | .ok as =>
-      match seqAll (kwargs.map (fun p =>
-          match argVal F prim target p.2 with
-          | .ok av => (match asVal av with | .ok v => .ok (p.1, v) | .error e => .error e)
-          | .error e => .error e)) with
+      match seqAll (kwargs.map (fun p => kwOfRes p.1 (argVal F prim target p.2))) with
       | .ok ks => .ok (.call as ks)
       | .error e => .error e
 termination_by o => sizeOf o
@@ -294,6 +305,10 @@ inductive E (V : Type) where
   | dict (es : List (E V × E V))             -- `{k: v, …}`
   | cargs (args : List (E V)) (kwargs : List (String × E V))   -- the arguments of a call step
 
+/-- the flat tuple `(op, arg, op, arg, …)` of a list of recorded steps -/
+def flatOfCells {V} (cells : List (String × Obj V)) : List (Obj V) :=
+  cells.flatMap (fun s => [Obj.opc s.1, s.2])
+
 /-- the overloads that pass `None` to `_t_child` -/
 def arglessDunders : List String := ["__invert__", "__neg__", "__star__", "__starstar__"]
 
@@ -317,20 +332,17 @@ def record {V} (F : Facts) (pyNone : V) : E V → Option (Obj V)
         match charOf F s.1 with
         | none => none
         | some c =>
-          if arglessDunders.contains s.1 then some [Obj.opc c, Obj.lit pyNone]
+          if arglessDunders.contains s.1 then some (c, Obj.lit pyNone)
           else match record F pyNone s.2 with
-            | some a => some [Obj.opc c, a]
+            | some a => some (c, a)
             | none => none)) with
-    | some cells => some (.tt (.root "T" :: cells.flatten))
+    | some cells => some (.tt (.root "T" :: flatOfCells cells))
     | none => none
   | .spec e => (record F pyNone e).map .spec
   | .list xs => (allSome (xs.map (fun x => record F pyNone x))).map .list
   | .tuple xs => (allSome (xs.map (fun x => record F pyNone x))).map .tuple
   | .dict es =>
-    (allSome (es.map (fun p =>
-      match record F pyNone p.1, record F pyNone p.2 with
-      | some a, some b => some (a, b)
-      | _, _ => none))).map .dict
+    (allSome (es.map (fun p => pairOpt (record F pyNone p.1) (record F pyNone p.2)))).map .dict
   | .cargs args kwargs =>
     match allSome (args.map (fun x => record F pyNone x)),
           allSome (kwargs.map (fun p => (record F pyNone p.2).map (fun a => (p.1, a)))) with
